@@ -382,7 +382,8 @@ class Float(Domain):
             return 1
 
     def match_string(self, value) -> str:
-        return f"{value:.6e}"
+        # ``+ 0.0`` maps -0.0 to 0.0, which are equal values
+        return f"{value + 0.0:.6e}"
 
     def __eq__(self, other) -> bool:
         return (
